@@ -33,7 +33,8 @@ def check_C07(sc, v, tier, seed, replay):
             v.distinct.add(canon([e["ev"], e["alg"], e["key"], e["count"], e["bearer"], e["dir"], e["in"]]))
     v.samples = [e for e in evs if e["ev"] in ("Enc", "Mac")][:3]
     v.rule = ("seeded grid: algorithm x message length 1..N (every residue mod 4/8/16) x BEARER x DIRECTION x COUNT corners x "
-              "random/corner keys, shuffled with repeats; SNOW 3G tables exhaustively; distinct = distinct argument tuple, "
+              "random/corner keys, shuffled with repeats; long messages for all four algorithms (2048, 4112 and 8208 octets: more than 256 / 2000 keystream "
+              "words and 2^16 bits; thorough: up to 65552 octets); SNOW 3G tables exhaustively; distinct = distinct argument tuple, "
               "non-trivial = non-empty message")
     v.assumptions = ["TLA+ transcriptions of AES/CMAC/SNOW 3G/f8/f9 (SelfTest vectors: FIPS-197, RFC 4493, SNOW 3G test set 1)"]
 
@@ -490,7 +491,7 @@ def _online_collect(v, runs, pid, sc=None):
         if r["verdict"] is None:
             raise HarnessError("online run %s produced no verdict" % r["name"])
         for rj in t.rejects:
-            if rj["why"].startswith("HARNESS") and rj["ev"] == "Model":
+            if rj["why"].startswith("HARNESS"):
                 raise HarnessError("online run %s: %s" % (r["name"], rj["why"]))
         v.add_tlc([t])
         v.traces += 1
@@ -921,7 +922,7 @@ def check_C12(sc, v, tier, seed, replay):
     jobs = []
     for i in range(2 if tier == "quick" else 6):
         scn, text = online.make_scenario(random.Random(seed * 1049 + i), {"reg": 2, "pdu": 2, "svc": 0, "rel": 0, "dereg": 0},
-                                         opts={"det": i + seed % 2, "mnc_len": 2 + i % 2})
+                                         opts={"det": i + seed % 2, "mnc_len": 2 + i % 2, "fill": 1 + i % 2})
         jobs.append(("est%02d" % i, scn, text))
     runs = online.run_many(sc, emu, jobs, parallel=8)
     _online_collect(v, runs, "C12", sc)
